@@ -65,7 +65,8 @@ def cell_cases(ctx: Ctx):
         func, engine, method, reindex, lk, rank, exp = cells[ci]
         dt = "bool" if func in ("any", "all") else "float64"
         if rank == 1:
-            lab = np.array([[5, 15, 5, 15, 25, 25], [5, 5, 15, 15, 25, 25], [5, 15, 25, 5, 15, 25]][ii % 3])
+            # the last pattern puts every label into three blocks of the size-1 layout: with split_every=2 the per-cohort tree has two levels
+            lab = np.array([[5, 15, 5, 15, 25, 25], [5, 5, 15, 15, 25, 25], [5, 15, 25, 5, 15, 25], [5, 15, 5, 15, 5, 15]][(ii // 5) % 4])
             if ii % 4 == 0:
                 lab = np.where(np.arange(6) == 2, np.nan, lab.astype(float))
             shape = (6,)
@@ -86,7 +87,7 @@ def cell_cases(ctx: Ctx):
         else:
             al = [-2.0, -1.0, 0.0, 1.0, 3.0] + ([np.nan] if func not in ("argmax", "argmin") else [])
             v = np.array([al[rng.integers(len(al))] for _ in range(n)]).reshape(shape)
-        c = dict(array=enc(v), by=[enc(lab)], func=func, engine=engine, method=method, reindex=reindex, chunks=chunks, split_every=4)
+        c = dict(array=enc(v), by=[enc(lab)], func=func, engine=engine, method=method, reindex=reindex, chunks=chunks, split_every=[2, 4, 3][(ii // 3) % 3])
         if axis is not None:
             c["axis"] = list(axis) if isinstance(axis, tuple) else axis
         if lk == "dask":
@@ -133,7 +134,7 @@ def run(ctx: Ctx):
         cases, ncells = cell_cases(ctx)
         run_bounded(
             ctx, "C19.rtc.cells", FUNCTION, cases, "vlib.props.C19:check",
-            bound=f"cell space reduction(29) x engine(5) x method(4) x reindex(3) x label kind(2) x label rank(2) x expected_groups(absent/present/none present) = {ncells} cells; a seeded sample of {len(cases)} cells, each on a length-6 / 2x3 input with rotating axis and chunk layout (single block, size-1 chunks = more blocks than split_every, uneven)",
+            bound=f"cell space reduction(29) x engine(5) x method(4) x reindex(3) x label kind(2) x label rank(2) x expected_groups(absent/present/none present) = {ncells} cells; a seeded sample of {len(cases)} cells, each on a length-6 / 2x3 input with rotating axis and chunk layout (single block, size-1 chunks, uneven) and split_every in {2, 3, 4} (a cohort of 3 blocks already needs a two-level tree)",
             rule="postcondition per cell: the call (and its compute) either returns the NumPy-specified result or raises ValueError / NotImplementedError / ImportError; when method='map-reduce' succeeds, method=None succeeds with the same answer; explicit blockwise only where its precondition holds; non-trivial = chunked with >= 2 blocks",
             nontrivial=lambda c: c.get("chunks") is not None and sum(len(x) for x in c["chunks"]) > len(c["chunks"]), chunksize=16,
         )
